@@ -1006,6 +1006,22 @@ func (r *Runtime) checkObjectCoercible(v Value) {
 	}
 }
 
+// float64ToInt64Mod converts a finite float64 to int64 modulo 2^64, as ToInt32 and friends require.
+// A plain int64(f) is implementation-defined in Go when f is outside the int64 range.
+func float64ToInt64Mod(f float64) int64 {
+	const two63, two64 = 9223372036854775808.0, 18446744073709551616.0
+	if f >= -two63 && f < two63 {
+		return int64(f)
+	}
+	f = math.Mod(f, two64) // exact
+	if f >= two63 {
+		f -= two64
+	} else if f < -two63 {
+		f += two64
+	}
+	return int64(f)
+}
+
 func toInt8(v Value) int8 {
 	v = v.ToNumber()
 	if i, ok := v.(valueInt); ok {
@@ -1015,7 +1031,7 @@ func toInt8(v Value) int8 {
 	if f, ok := v.(valueFloat); ok {
 		f := float64(f)
 		if !math.IsNaN(f) && !math.IsInf(f, 0) {
-			return int8(int64(f))
+			return int8(float64ToInt64Mod(f))
 		}
 	}
 	return 0
@@ -1030,7 +1046,7 @@ func toUint8(v Value) uint8 {
 	if f, ok := v.(valueFloat); ok {
 		f := float64(f)
 		if !math.IsNaN(f) && !math.IsInf(f, 0) {
-			return uint8(int64(f))
+			return uint8(float64ToInt64Mod(f))
 		}
 	}
 	return 0
@@ -1084,7 +1100,7 @@ func toInt16(v Value) int16 {
 	if f, ok := v.(valueFloat); ok {
 		f := float64(f)
 		if !math.IsNaN(f) && !math.IsInf(f, 0) {
-			return int16(int64(f))
+			return int16(float64ToInt64Mod(f))
 		}
 	}
 	return 0
@@ -1099,7 +1115,7 @@ func toUint16(v Value) uint16 {
 	if f, ok := v.(valueFloat); ok {
 		f := float64(f)
 		if !math.IsNaN(f) && !math.IsInf(f, 0) {
-			return uint16(int64(f))
+			return uint16(float64ToInt64Mod(f))
 		}
 	}
 	return 0
@@ -1114,7 +1130,7 @@ func toInt32(v Value) int32 {
 	if f, ok := v.(valueFloat); ok {
 		f := float64(f)
 		if !math.IsNaN(f) && !math.IsInf(f, 0) {
-			return int32(int64(f))
+			return int32(float64ToInt64Mod(f))
 		}
 	}
 	return 0
@@ -1129,7 +1145,7 @@ func toUint32(v Value) uint32 {
 	if f, ok := v.(valueFloat); ok {
 		f := float64(f)
 		if !math.IsNaN(f) && !math.IsInf(f, 0) {
-			return uint32(int64(f))
+			return uint32(float64ToInt64Mod(f))
 		}
 	}
 	return 0
